@@ -144,13 +144,17 @@ class Execution:
             raise _Abort()
         a.state = RUNNING
 
-    def sleep(self, d: float) -> None:
+    def sleep(self, d: float, strict: bool = False) -> None:
+        """Library sleeps (retry / poll loops) may end early when the shared
+        state changed - that only shortens a delay.  `strict` sleeps (harness
+        bodies that must really hold something for a virtual duration) end only
+        when the clock reaches the wake time."""
         a = self.current()
         if a is None or self.passthrough:
             return
         a.state = PARKED
         a.wake = ENV.clock + max(0.0, float(d))
-        a.parked_ver = self.write_ver
+        a.parked_ver = float("inf") if strict else self.write_ver
         a.pending = Op("z", "", f"sleep({d:.3f})")
         self._yield(a)
         a.wake = None
